@@ -10,6 +10,7 @@ import PoolModel.Util
   p2wsh <lockTime> <sequence> <program> <txtag> <w> <sigs>            → ok | error name, then the classification
   taproot <lockTime> <sequence> <program> <txtag> <w> <sigs> <commits> → idem
   wtype <version> <state> <expiry> <best>                     → `<witnessType> <isExpiry> <witnessSize>`
+  stage <ext> <upg> <value> <expiry> <version> <endBal> <newExpiry> <newVersion> → staged record `<value> <expiry> <version> <batchKeyIncrements>`
   mgrwt <method> <version> <state> <expiry> <best>            → `<witnessType> <lockTime> <sequence>` | `<witnessType> err`
   mgrlock <version> <state> <expiry> <best> <isClose>         → `<lockTime> <sequence>` of the spend tx | err
 
@@ -124,6 +125,13 @@ def drvStep (_ : DrvSt) (args : List String) : DrvSt × String :=
       let wt := determineWitnessType v st e best
       wt.name ++ " " ++ b2s (wtypeIsExpiry wt) ++ " " ++ toString (wtypeWitnessSize wt)
     | _, _, _, _ => "bad-op"
+  | ["stage", ext, upg, value, e, v, endBal, ne, nv] =>
+    match ext.toNat?, upg.toNat?, value.toNat?, e.toNat?, v.toNat?, endBal.toNat?, ne.toNat?, nv.toNat? with
+    | some ext, some upg, some value, some e, some v, some endBal, some ne, some nv =>
+      match storedAfterBatch ⟨ext == 1, upg == 1, endBal, ne, nv⟩ ⟨value, e, v, 0⟩ with
+      | some a => s!"{a.value} {a.expiry} {a.version} {a.batchInc}"
+      | none => "none"
+    | _, _, _, _, _, _, _, _ => "bad-op"
   | ["mgrwt", method, v, st, e, best] =>
     match v.toNat?, st.toNat?, e.toNat?, best.toNat? with
     | some v, some st, some e, some best =>
